@@ -1,0 +1,10 @@
+//go:build !verif
+
+package timex
+
+import "time"
+
+// verifNow is the disabled verification clock hook (build tag verif off).
+func verifNow() (time.Duration, bool) {
+	return 0, false
+}
